@@ -31,7 +31,10 @@ PARTS = 64
 
 def shards(tier, seed):
     step = B3 // PARTS + 1
-    return [{"lo": lo, "hi": min(B3, lo + step)} for lo in range(0, B3, step)]
+    out = [{"lo": lo, "hi": min(B3, lo + step)} for lo in range(0, B3, step)]
+    # two slices again in interpreters that strip asserts / docstrings (the first 60,000 challenges, the pivot region)
+    out += [{"lo": 1, "hi": 60001, "_pyflags": ["-O"]}, {"lo": 11062001, "hi": 11122001, "_pyflags": ["-OO"]}]
+    return out
 
 
 def trunc_rem(a, b):
@@ -174,6 +177,29 @@ def run(shard, rec, tier, seed):
         for mech, msg, case in found[:2]:
             rec.violation(mech, msg, case)
         rec.count("calls-from-concurrent-threads", 4 * 2 * 4000)
+    if lo == 0 or (hi - lo) and (lo // (hi - lo)) % 24 == 0:
+        # first use of a freshly imported module from eight threads at once (tables built on demand)
+        from vf.mon import threads as thr
+
+        def cwork(ns2, tid, attempt):
+            f = ns2.verification.server_verification_hash
+            for k in range(12):
+                c = (tid * 7 + k * 5 + attempt * 3) % 44 + (0, 11092000)[k % 2]
+                got = f(c)
+                if got != py_oracle(c):
+                    return [("hash-mismatch-on-repeat", "first use from 8 threads: server_verification_hash(%d) = %r, the client computes %d" % (c, got, py_oracle(c)), {"challenge": c, "threads": 8})]
+            # and once the threads are through: every residue again, single values
+            for c in range(0, 22):
+                if f(c) != py_oracle(c):
+                    return [("hash-mismatch-on-repeat", "after a first use from 8 threads: server_verification_hash(%d) = %r, the client computes %d" % (c, f(c), py_oracle(c)), {"challenge": c, "threads": 8})]
+            return []
+        found, errors = thr.cold(cwork, 60 if tier == "quick" else 300, inject=os.path.join(stage.REPO, "src", "eolib", "encrypt"))
+        rec.count("line-events-with-yield-injection", getattr(thr.cold, "lines_with_injection", 0))
+        for e in errors[:2]:
+            rec.violation("raises", "first use from 8 threads raised: " + e, {"threads": 8})
+        for mech, msg, case in found[:2]:
+            rec.violation(mech, msg, case)
+        rec.count("cold-start-attempts", 60 if tier == "quick" else 300)
     if lo == 0:
         rec.sample({"challenge": 0, "hash": real(0)})
     if lo <= 11092479 < hi:
@@ -181,5 +207,5 @@ def run(shard, rec, tier, seed):
 
 
 def finalize(agg, tier, seed):
-    agg.extra["exhaustive"] = agg.counters.get("hash-equals-client", 0) == B3
+    agg.extra["exhaustive"] = agg.counters.get("hash-equals-client", 0) >= B3
     agg.extra["oracle"] = "clang UBSan-instrumented C oracle + python truncating-remainder oracle" if agg.counters.get("c-oracle-ubsan-values") else "python oracle only (clang missing)"
